@@ -777,7 +777,7 @@ class OutProtocolBase(ProtocolMixin):
                 sites.append(site)
 
         s = s1
-        syear = "%4d" % (dt.year,)
+        syear = "%04d" % (dt.year,)
         for site in sites:
             s = s[:site] + syear + s[site+4:]
         return s
